@@ -108,6 +108,20 @@ fn main() {
         // only the coverage-guided campaigns (used while developing the fuzz layer)
         ctx.mode = Mode::List;
     }
+    // watchdog: a check that does not come to an end (a tree whose code hangs or slows down without
+    // bound) is inconclusive, never a violation
+    {
+        let budget: u64 = std::env::var("VERIF_WATCHDOG_SECS")
+            .ok()
+            .and_then(|s| s.trim().parse().ok())
+            .unwrap_or(if tier == Tier::Quick { 2_400 } else { 8 * 3_600 });
+        let what = format!("{} {:?}", id, tier);
+        std::thread::spawn(move || {
+            std::thread::sleep(std::time::Duration::from_secs(budget));
+            eprintln!("INCONCLUSIVE: watchdog: {} did not finish within {} s", what, budget);
+            std::process::exit(2);
+        });
+    }
     let mut meta = (prop.run)(&ctx);
     ctx.mode = Mode::Normal;
     if tier == Tier::Thorough && !ctx.has_violation() && std::env::var("VERIF_NO_FUZZ").is_err() {
